@@ -8,9 +8,9 @@ for d in sorted(glob.glob('/verif/seeded/C*-m*')):
     summ = m.get('summary', '').replace('\n', ' ').replace('|', '/')
     first = summ if len(summ) <= 230 else summ[:227] + '...'
     sigs = ', '.join(sorted(set(m.get('caught_by', []))))[:170] or '-'
-    state = 'caught' if m.get('caught') else 'MISSED'
+    state = 'caught' if m.get('caught') else 'not caught'
     if m.get('history'):
-        state += ' (after strengthening)'
+        state += ' (after strengthening)' if m.get('caught') else ' (by decision, see below)'
     rows.append(f"| {name} | {first} | {state} | {sigs} |")
 table = "| seeded change | what it does (author's summary, shortened) | result | signatures of the violations reported |\n|---|---|---|---|\n" + "\n".join(rows)
 notes = []
@@ -26,5 +26,5 @@ if '<!-- SEEDED-TABLE-BEGIN -->' in s:
 else:
     s = s.rstrip('\n') + '\n\n' + block + '\n'
 open(p, 'w').write(s)
-n = len(rows); c = sum('caught' in r.split('|')[3] for r in rows)
+n = len(rows); c = sum(r.split('|')[3].strip().startswith('caught') for r in rows)
 print(f"{n} seeded changes, {c} caught")
